@@ -1,0 +1,21 @@
+//go:build verif
+
+package proxy
+
+import "time"
+
+// VerifSetTimings overrides the wrapper's timing variables (status check
+// interval, wait-for-response timeout, start-error retry interval) so that
+// verification histories run in milliseconds. Zero values leave a setting as is.
+// It must be called before any client service is started.
+func VerifSetTimings(check, waitResp, startErr time.Duration) {
+	if check > 0 {
+		statusCheckInterval = check
+	}
+	if waitResp > 0 {
+		waitResponseTimeout = waitResp
+	}
+	if startErr > 0 {
+		startErrTimeout = startErr
+	}
+}
